@@ -10,37 +10,37 @@ CHECKS = {
    "Seeded exploration of call histories (send/poll/handle_stun/cancel/cancel_retransmissions/configure_timeout, duplicate ids, forged, duplicate, late and unknown responses, stalls) on the real StunAgent, checked after every call against a transaction model: exactly-once completion, outstanding-set bookkeeping (through the read-only and the mutable handle), refusal of duplicate ids (also with another method or at a later instant), id reuse, drop of responses for non-outstanding ids, bounded liveness once driven at the announced wake-ups. One run in 25 is a scale run (up to 40, sometimes 250-320 concurrent transactions, hundreds of peers, floods of 20-300 forged responses, a clock starting 2^32 ms or more from zero). Plus the `world` scenario: clients, a stund-like server, an attacker, faulty UDP links and framed TCP streams. Sampling, not proof.",
    "Trusted: the transaction model (sim/src/model_tx.rs), the reference codec used to judge signed responses, RustCrypto hash primitives. Assumes monotonic instants per agent. Between cancel() and the poll that reports it, whether the transaction still counts as outstanding (queries, id re-use, a late report) is left open, as no property states it.", "§4.1, §5 C05"),
  "C06": ("exploration", TECH + " (discrete-event clock; early/exact/late/repeated polls, stalls, clock jumps, reconfiguration)",
-   "Seeded exploration of poll schedules x timeout configurations x concurrent transactions on the real StunAgent with a simulated clock; every WaitUntil value, every retransmission instant and count and every time-out is compared with the RFC 8489 schedule computed by the model, plus a model-free self-consistency clause (earlier poll => same instant, poll at the instant => event). Poll lateness includes powers of two of ns/us/ms (2^31..2^33 ms, 2^53 ns), sends happen at instants between polls, bursts of several hundred requests become due together, and exactly 2^8 / 2^16 (+-1) state-changing calls are placed between two adjacent polls.",
-   "Assumes whole-millisecond configure_timeout arguments in the stated ranges and monotonic instants; mid-schedule reconfiguration keeps the retransmission count (DESIGN §4.1).", "§4.1, §5 C06"),
+   "Seeded exploration of poll schedules x timeout configurations x concurrent transactions on the real StunAgent with a simulated clock; every WaitUntil value, every retransmission instant and count and every time-out is compared with the RFC 8489 schedule computed by the model, plus a model-free self-consistency clause (earlier poll => same instant, poll at the instant => event). Poll lateness includes powers of two of ns/us/ms (2^31..2^33 ms, 2^53 ns), sends happen at instants between polls, bursts of several hundred requests become due together, and exactly 2^8 / 2^16 (+-1) state-changing calls are placed between two adjacent polls. In one run of four, while nothing is due, some polls carry a stale clock sample (an instant up to 2 s earlier than the latest one handed in): the answer must be the same WaitUntil. In one run of five a third of the send/poll/handle_stun calls are made through a kept StunRequestMut handle (mut_agent()).",
+   "Assumes whole-millisecond configure_timeout arguments in the stated ranges; instants are ordered except for the stale polls described (only issued while nothing is due, where clamping and non-clamping implementations agree); mid-schedule reconfiguration keeps the retransmission count (DESIGN §4.1).", "§4.1, §5 C06"),
  "C07": ("exploration", TECH + " (attacker node forging/replaying responses into live signed transactions; reference HMAC as judge)",
-   "Seeded exploration of histories with forged, unsigned, wrong-key, bit-flipped, mixed and truncated-MAC responses x remote credentials unset/set/changed mid-transaction; the delivery decision is judged by an independent HMAC implementation (must drop: no or no correct integrity attribute, no remote credentials, or a wrong exposed MAC after the last correct one; must deliver: only the canonical response - from the request's destination, its method, exactly its algorithms at full length, FINGERPRINT iff the request had one, nothing hidden; anything else: either); and a twin agent is handed the same calls except the responses the agent under test dropped: the two must answer every other call identically, polls being compared per instant as sets after draining both (dropped responses neither complete, cancel nor delay anything, however many there are - floods of up to 300).",
+   "Seeded exploration of histories with forged, unsigned, wrong-key, bit-flipped, mixed and truncated-MAC responses x remote credentials unset/set/changed mid-transaction; the delivery decision is judged by an independent HMAC implementation (must drop: no or no correct integrity attribute, no remote credentials, or a wrong exposed MAC after the last correct one; must deliver: only the canonical response - from the request's destination, its method, exactly its algorithms at full length, FINGERPRINT iff the request had one, nothing hidden; anything else: either); and a twin agent is handed the same calls except the responses the agent under test dropped: the two must answer every other call identically, polls being compared per instant as sets after draining both (dropped responses neither complete, cancel nor delay anything, however many there are - floods of up to 300). Forged kinds include a correctly signed response with one bit altered anywhere before the MAC (header and attribute padding included).",
    "Trusted: reference HMAC/key derivation over RustCrypto hash primitives. The properties state when a response must not be delivered and one case in which it must; where they are silent (non-canonical but valid responses; a wrong earlier MAC under a correct later one) the model follows the agent. Reading reviewed by two rounds of white-box review (DESIGN §16).", "§4.1, §5 C07"),
  "C15": ("exploration", TECH + " (histories over several source addresses incl. dropped traffic; exact set equality after every call)",
-   "After every call of every explored history is_validated_peer is compared, for every address of the run's pool, with the model's set (grows only on IncomingStun / StunResponse from that very address; never on Drop or send; never shrinks). Pools contain same-IP/other-port, IPv4-mapped IPv6 and link-local addresses differing only in scope id; scale runs use up to 330 peers (bursts of requests from hundreds of distinct sources).",
+   "After every call of every explored history is_validated_peer is compared, for every address of the run's pool, with the model's set (grows only on IncomingStun / StunResponse from that very address; never on Drop or send; never shrinks). Pools contain same-IP/other-port, IPv4-mapped IPv6 and link-local addresses differing only in scope id; scale runs use up to 330 peers (bursts of requests from hundreds of distinct sources; one scale run in three under this check).",
    "Same trusted base as C05.", "§4.1, §5 C15"),
  "C18": ("exploration", TECH + " (wire tap on every Transmit of every explored history)",
-   "Every Transmit returned by send and poll in every explored history is compared byte for byte and address for address with what the application handed in (bytes taken from MessageBuilder::build before send); peer_address while outstanding (read-only and mutable handle); non-requests transmitted once and leave no transaction; agents built with and without the builder's fixed remote address; requests carrying registered-but-unimplemented attribute types (RFC 7982 counter, TURN, NAT discovery), embedded STUN messages, 2-5 KB and 60 KB payloads.",
+   "Every Transmit returned by send and poll in every explored history is compared byte for byte and address for address with what the application handed in (bytes taken from MessageBuilder::build before send); peer_address while outstanding (read-only and mutable handle); non-requests transmitted once and leave no transaction; agents built with and without the builder's fixed remote address; requests carrying registered-but-unimplemented attribute types (RFC 7982 counter, TURN, NAT discovery), embedded STUN messages, 2-5 KB and 60 KB payloads. Round 4: the builder is handed to send as built, cloned or after into_owned(); one description in five is assembled with operations the builder refuses interleaved (they must leave no trace); the agent's local address is a wildcard of either family, IPv6, IPv4-mapped or loopback in one run of six; in one run of five calls are made through a kept StunRequestMut handle whose peer_address() is read before and after the call.",
    "Same trusted base as C05; message contents come from the harness generator (all attribute kinds, sealing variants, up to 60 KB).", "§4.1, §5 C18"),
  "C01": ("exploration", TECH + " (faulty network / hostile peer delivering damaged traffic into a node that runs every decoding entry point; crash = panic, hang = watchdog)",
    "Seeded exploration: traffic from the library builder and from a foreign peer is damaged by 0..4 drawn wire faults (corruption, bursts, truncation, concatenation with the next message, structure-aware attribute splices, header damage; deliveries of 0..70000 bytes incl. the 16-bit boundary) and run through a receive pipeline that calls every public decoding entry point and every read-only operation (with and without a tracing subscriber) under catch_unwind, overflow checks and a per-call watchdog; deliveries are sometimes preceded by an intact copy or inspected only after the rest of the batch was parsed (decoder state carried between calls); supported/required sets of up to 80 types; strings up to 1100 multi-byte characters; 30..300-attribute messages. Weakest fit of the claimed properties: the quantifier is 'all byte strings'; what the simulator adds is a fault model producing what a deployed parser meets and a pipeline driving all entry points; reach is measured by probes.",
    "Sampling only. Trusted: the harness's own fault generator reaches the interesting inputs (measured: probes in the evidence file). Library built with overflow-checks and debug-assertions on.", "§5 C01"),
  "C02": ("exploration", TECH + " (receiver's verdict on fault-damaged traffic compared with a reference decoder; fault-free and fault-injecting profiles separate)",
-   "Differential oracle on every simulated delivery: accept/reject, the named cause, and the decoded view (class, method, id, exposed attribute sequence, first-match lookups) must equal an independently written reference decoder's; over-long buffers (incl. an excess of exactly 64 KiB) must be refused or behave exactly as the buffer cut to its declared length; NotStun is accepted as a cause wherever the bytes present show it (top bits, a wrong cookie byte, a length that is not a multiple of 4); a parser that panics has given no verdict; whenever Truncated is answered the size reported as available must not exceed the buffer; the exposed sequence must be the same however the iterator is driven (nth/skip/step_by/last/count); Message::try_from agrees with from_bytes. Traffic comes from the library builder and a foreign peer (wire forms the builder cannot produce) through the fault table.",
+   "Differential oracle on every simulated delivery: accept/reject, the named cause, and the decoded view (class, method, id, exposed attribute sequence, first-match lookups) must equal an independently written reference decoder's; over-long buffers (incl. an excess of exactly 64 KiB) must be refused or behave exactly as the buffer cut to its declared length; NotStun is accepted as a cause wherever the bytes present show it (top bits, a wrong cookie byte, a length that is not a multiple of 4); a parser that panics has given no verdict; whenever Truncated is answered the size reported as available must not exceed the buffer; the exposed sequence must be the same however the iterator is driven (nth/skip/step_by/last/count); Message::try_from agrees with from_bytes; lookups (raw, has, typed attribute::<T>()) return the first match in whatever order they are asked, also on a clone; one foreign message in six repeats an attribute type with a fresh value. Traffic comes from the library builder and a foreign peer (wire forms the builder cannot produce) through the fault table.",
    "Trusted: reference decoder (sim/src/refcodec.rs, ~300 lines, cross-checked on RFC 5769). When several defects coexist any of them may be named. Sampling, not proof.", "§4.2, §5 C02"),
  "C04": ("fault_enumeration", TECH + " (on-path tampering: all single-bit flips of each sampled sealed message; key mismatch between parties; reference HMAC as judge)",
    "Per sampled sealed message (library builder and foreign peer, all tails incl. truncated SHA-256, short/long-term keys over arbitrary UTF-8): builder's seal equals the reference MAC; validates under its key with a present-and-correct algorithm; EVERY single-bit flip from byte 0 to the end of the last exposed integrity attribute plus sampled byte substitutions is rejected by parser or validation; an Ok verdict is accepted only if a correct attribute of the reported algorithm lies after every wrong exposed one; SHA-256 attributes of illegal length carrying the right HMAC prefix never validate; six other keys (incl. near-identical: quoted, padded, case-toggled, the other credential kind with the same text 'user:realm:password') fail, each tried right after a successful validation under the right key; every emission path of the builder (write_into a recycled non-zero buffer, into_owned) yields a message that validates; missing integrity reported.",
    "Complete only relative to the sampled messages. Trusted: reference HMAC/key derivation over RustCrypto hash primitives. Keys differing only by trailing NUL bytes are the same HMAC key (RFC 2104) and are not counted as 'another key'. For a message carrying two exposed integrity attributes, damage to either must be noticed (reading stated in DESIGN §5 C04).", "§4.2, §5 C04"),
  "C09": ("fault_enumeration", TECH + " (link corruption: all single-bit flips, all bursts <=32 bits, all byte substitutions of each sampled short fingerprinted message; reference CRC as judge)",
-   "Per sampled fingerprinted message: every emission path of the builder carries the reference CRC of its own bytes; every single-bit flip, every burst 2..32 bits at every offset (short messages; sampled for long), every byte substitution (short; sampled for long) is judged by the reference decoder and by the direct clause 'still ends in FINGERPRINT => rejected' (covers length-field damage, which the CRC cannot see); structured 32-bit error patterns on the CRC value and every aligned word (the XOR constant, all-ones, byte swap, CRC without length adjustment / final XOR); one message in six is crafted (GF(2) solve) so that the receiver-side CRC or the value on the wire is 0, all-ones, 0x5354554e or its complement.",
+   "Per sampled fingerprinted message: every emission path of the builder carries the reference CRC of its own bytes; every single-bit flip, every burst 2..32 bits at every offset (short messages; sampled for long), every byte substitution (short; sampled for long) is judged by the reference decoder and by the direct clause 'still ends in FINGERPRINT => rejected' (covers length-field damage, which the CRC cannot see); structured 32-bit error patterns on the CRC value and every aligned word (the XOR constant, all-ones, byte swap, CRC without length adjustment / final XOR); builders that attempted refused operations before add_fingerprint; one message in six is crafted (GF(2) solve) so that the receiver-side CRC or the value on the wire is 0, all-ones, 0x5354554e or its complement.",
    "Complete only relative to the sampled messages and the size bounds in the evidence file.", "§4.2, §5 C09"),
  "C10": ("exploration", TECH + " (foreign peer emitting every tail order; on-path attacker rewriting what follows the first integrity attribute)",
-   "Every order/subset of {MI, MI-SHA256 (16..32 B), FP} after 0..4 ordinary attributes from a foreign peer, and library-built signed messages whose tail is rewritten in flight by an attacker: iteration (driven by next, nth, skip, step_by, last, count) and lookups must equal the reference exposure list, FINGERPRINT always exposed, the algorithm validation reports present in the message, exposed prefix unchanged by the rewrite or by bytes appended after the message; some messages are sized to the very end of the 16-bit length range (integrity attribute ending beyond offset 65535).",
+   "Every order/subset of {MI, MI-SHA256 (16..32 B), FP} after 0..4 ordinary attributes from a foreign peer, and library-built signed messages whose tail is rewritten in flight by an attacker: iteration (driven by next, nth, skip, step_by, last, count) and lookups must equal the reference exposure list, FINGERPRINT always exposed, the algorithm validation reports present in the message, exposed prefix unchanged by the rewrite or by bytes appended after the message; some messages are sized to the very end of the 16-bit length range (integrity attribute ending beyond offset 65535). Round 4: lookups repeated in descending and alternating type order on the same Message and on a clone; typed lookups attribute::<T>() judged against T::from_raw of the first exposed attribute; for accepted requests the policing verdict (check_attribute_types) may depend on exposed attributes only.",
    "Trusted: reference exposure rule (sim/src/refcodec.rs::exposure), written from the property text.", "§4.2, §5 C10"),
  "C14": ("exploration", TECH + " (byte-stream segmentation, push/pull interleaving and connection cut against a frame model; full sweep of short streams)",
-   "The real TcpBuffer is fed frame sequences cut into drawn segments with drawn push/pull interleavings and optional connection cut; every pull is compared with a frame model (VecDeque); 1..3 connections per run (previous buffer dropped, possibly with unread bytes); payloads include real STUN messages and near-misses. Plus, per drawn short stream, all 2^(n-1) segmentations x 2 drain patterns; plus one long-lived connection per quick run (8 per thorough run) through which more than 2^32 bytes pass.",
+   "The real TcpBuffer is fed frame sequences cut into drawn segments with drawn push/pull interleavings and optional connection cut; every pull is compared with a frame model (VecDeque); 1..3 connections per run (previous buffer dropped, possibly with unread bytes); payloads include real STUN messages and near-misses. Plus, per drawn short stream, all 2^(n-1) segmentations x 2 drain patterns; plus one long-lived connection per quick run (8 per thorough run) through which more than 2^32 bytes pass. Zero-length pushes before/after a chunk in one run of three.",
    "Trusted: the 15-line frame model. The sweep is exhaustive only for streams <= 12 bytes / 3 frames.", "§4.3, §5 C14"),
  "C17": ("fault_enumeration", TECH + " (connection cut / short read at every byte of each sampled message; header-delimited reassembly over a segmented stream)",
-   "Per sampled well-formed message (20 B .. 65552 B): EVERY cut point must answer Truncated{expected, actual} with the exact sizes; header decoder vs full parser on all 160 single-bit header variants (on fewer than 20 bytes the header decoder must merely not accept); the header decoder alone on 160 single-bit neighbours back to back; a stalled stream asking 40 times about the same prefix; reassembly of 1..4 messages from a randomly segmented stream using only the header decoder and the reported size; a tracing subscriber is installed in one run of eight.",
+   "Per sampled well-formed message (20 B .. 65552 B): EVERY cut point must answer Truncated{expected, actual} with the exact sizes; header decoder vs full parser on all 160 single-bit header variants (on fewer than 20 bytes the header decoder must merely not accept), each variant judged against the full parser given the whole buffer and given the 20-byte prefix alone; the header decoder alone on 160 single-bit neighbours back to back; a stalled stream asking 40 times about the same prefix; reassembly of 1..4 messages from a randomly segmented stream using only the header decoder and the reported size; a tracing subscriber is installed in one run of eight.",
    "Complete only relative to the sampled messages.", "§5 C17"),
  "C20": ("exploration", TECH + " (recorded history replayed on another instance, time-shifted, on another thread, and interleaved with unrelated agents)",
    "Every explored history is recorded call by call and replayed five ways on fresh agents (other instance, time-shifted, other thread, interleaved with unrelated agents, anchored in the process's real past); reply sequences must be equal element by element with reported instants shifted by exactly the same constant. Plus two model-based clauses for the last sentence of the property: a send while others are outstanding is answered with its own transmission, and a WaitUntil that disagrees with the model is a leak exactly when it is some transaction's interval counted from an instant handed to a call that was not about that transaction.",
